@@ -105,29 +105,50 @@ func (P *Prog) fileLogin(v ssa.Value) (login ssa.Value, anchored bool) {
 		return nil, false
 	}
 	name := stripConv(args[1])
-	// Join("/", L)+".yaml"
+	// Join("/", L)+".yaml"  /  Clean("/"+L)+".yaml"
 	if b, ok := name.(*ssa.BinOp); ok && b.Op == token.ADD {
 		if s, isC := constString(b.Y); isC && s == ".yaml" {
-			if j := callValue(b.X); j != nil && (calleeName(&j.Call) == "path.Join" || calleeName(&j.Call) == "path/filepath.Join") {
-				ja := callArgsFlat(&j.Call)
-				if len(ja) == 2 {
-					if s0, ok := constString(ja[0]); ok && s0 == "/" {
-						return ja[1], true
-					}
-				}
+			if inner, ok := rootedOperand(b.X); ok {
+				return inner, true
 			}
 			return b.X, false
 		}
 	}
-	// Join("/", L+".yaml")
-	if j := callValue(name); j != nil && (calleeName(&j.Call) == "path.Join" || calleeName(&j.Call) == "path/filepath.Join") {
+	// Join("/", L+".yaml")  /  Clean("/"+L+".yaml")
+	if inner, ok := rootedOperand(name); ok {
+		if b, ok := stripConv(inner).(*ssa.BinOp); ok && b.Op == token.ADD {
+			if s, isC := constString(b.Y); isC && s == ".yaml" {
+				return b.X, true
+			}
+		}
+	}
+	return nil, false
+}
+
+// rootedOperand: v is Join("/", X) or Clean("/"+X) (path or path/filepath); returns X.
+func rootedOperand(v ssa.Value) (ssa.Value, bool) {
+	j := callValue(v)
+	if j == nil {
+		return nil, false
+	}
+	switch calleeName(&j.Call) {
+	case "path.Join", "path/filepath.Join":
 		ja := callArgsFlat(&j.Call)
 		if len(ja) == 2 {
 			if s0, ok := constString(ja[0]); ok && s0 == "/" {
-				if b, ok := stripConv(ja[1]).(*ssa.BinOp); ok && b.Op == token.ADD {
-					if s, isC := constString(b.Y); isC && s == ".yaml" {
-						return b.X, true
-					}
+				return ja[1], true
+			}
+		}
+	case "path.Clean", "path/filepath.Clean":
+		// "/"+X, and "/"+L+".yaml" which parses as ("/"+L)+".yaml": rebuild X = L+".yaml" is not possible as an SSA
+		// value, so the left-nested form is returned as a synthetic concatenation
+		if b, ok := stripConv(j.Call.Args[0]).(*ssa.BinOp); ok && b.Op == token.ADD {
+			if s0, ok := constString(b.X); ok && s0 == "/" {
+				return b.Y, true
+			}
+			if bb, ok := stripConv(b.X).(*ssa.BinOp); ok && bb.Op == token.ADD {
+				if s0, ok := constString(bb.X); ok && s0 == "/" {
+					return &ssa.BinOp{Op: token.ADD, X: bb.Y, Y: b.Y}, true
 				}
 			}
 		}
